@@ -1,9 +1,129 @@
 import Olla.Driver.Util
+import Olla.Model.Health
+import Olla.Spec.C07
 
+/-
+Driver for C07.  One case = one history on one endpoint (harness/repo/internal/zz_verif/c07):
+`interval` (ns), `ideal` (scheduler runs checks exactly when due), `ops` = [[kind,arg],…] with
+kind 0 check, 1 sched, 2 proxyFail, 3 tick arg ns, 4 tick by the pending delay (arg = value the
+harness used); `obs` flat ints, ten per step:
+ran reached status delay fired failures mult breakerFailures breakerOpen breakerAttemptSet.
+-/
 namespace Olla.Driver.C07
-open Lean Olla.Driver
+open Lean Olla.Driver Olla.Model.Health
+open Olla.Model.Breaker (activeHealth Variant)
 
-/-- placeholder until the C07 driver is written -/
-def main : IO Unit := pure ()
+abbrev Op := Olla.Model.Health.Op
+abbrev SObs := Olla.Spec.C07.Obs
+
+def outcomeOfInt (o : Int) : Outcome :=
+  if o ≥ 100000 then .http (o - 100000).toNat true
+  else if o ≥ 100 then .http o.toNat false
+  else if o == 1 || o == 11 then .netErr
+  else if o == 2 || o == 12 then .timeout
+  else .otherErr
+
+def outcomeStr : Outcome → String
+  | .http c s => s!"{c}{if s then "(slow)" else ""}" | .netErr => "connErr" | .timeout => "timeout" | .otherErr => "otherErr"
+
+def opStr : Op → String
+  | .check o => s!"check:{outcomeStr o}" | .sched o => s!"sched:{outcomeStr o}" | .proxyFail => "proxyFail"
+  | .tick d => s!"tick:{d / 1000000}ms"
+
+def statusOfIdx : Nat → Status
+  | 0 => .healthy | 1 => .busy | 2 => .offline | 3 => .warming | 4 => .unhealthy | _ => .unknown
+def idxOfStatus : Status → Nat
+  | .healthy => 0 | .busy => 1 | .offline => 2 | .warming => 3 | .unhealthy => 4 | .unknown => 5
+
+partial def chunk10 : List Int → List (List Int)
+  | a :: b :: c :: d :: e :: f :: g :: h :: i :: j :: rest => [a, b, c, d, e, f, g, h, i, j] :: chunk10 rest
+  | _ => []
+
+def slack : Int := 50000000
+def near (a b : Int) : Bool := (a - b < slack) && (b - a < slack)
+
+/-- would the breaker's or the scheduler's decision depend on less than 50 ms of clock difference? -/
+def ambiguous (c : Cfg) (s : St) : Op → Bool
+  | .check _ => s.cb.isOpen && near (s.cb.lastFailure + c.breaker.timeout) s.cb.now
+  | .sched _ => near s.ep.nextCheck s.cb.now || (s.cb.isOpen && near (s.cb.lastFailure + c.breaker.timeout) s.cb.now)
+  | _ => false
+
+def modelObs (s' : St) (out : Out) : List Int :=
+  [if out.ran then 1 else 0, if out.reached then 1 else 0, (idxOfStatus s'.ep.status : Int), s'.delay,
+   if out.fired then 1 else 0, (s'.ep.failures : Int), (s'.ep.mult : Int), (s'.cb.failures : Int),
+   if s'.cb.isOpen then 1 else 0, if s'.cb.lastAttempt.isSome then 1 else 0]
+
+/-- decode the ops against the model state (kind 4 needs the model's pending delay to be compared) -/
+def simulate (vh vb : Variant) (c : Cfg) : St → List (Int × Int) → List (Op × List Int) × Bool × Bool
+  | _, [] => ([], false, true)
+  | s, (k, a) :: rest =>
+    let op : Op := if k == 0 then .check (outcomeOfInt a) else if k == 1 then .sched (outcomeOfInt a)
+                   else if k == 2 then .proxyFail else .tick a.toNat
+    let dueOk := if k == 4 then a == s.ep.nextCheck - s.ep.lastChecked else true
+    let amb := ambiguous c s op
+    let r := step vh vb c s op
+    let (tl, amb', due') := simulate vh vb c r.1 rest
+    ((op, modelObs r.1 r.2) :: tl, amb || amb', dueOk && due')
+
+def specObs (o : List Int) : Olla.Spec.C07.Obs :=
+  { ran := o.getD 0 0 != 0, reached := o.getD 1 0 != 0, status := statusOfIdx (o.getD 2 5).toNat,
+    delay := o.getD 3 0, fired := (o.getD 4 0).toNat }
+
+open Olla.Spec.C07 in
+def monitor (P : Params) : Ghost → List Bool → List (Olla.Model.Health.Op × Olla.Spec.C07.Obs) → List Bool
+  | _, bad, [] => bad
+  | g, bad, (op, o) :: rest =>
+    monitor P (g.step op o) ((Clause.all.zip bad).map (fun (k, b) => b || !clauseOk P k g op o)) rest
+
+def branchOf (h : List (Op × Olla.Spec.C07.Obs)) : String :=
+  let blocked := h.any (fun (_, o) => o.ran && !o.reached && o.status != .healthy && true)
+  let shortc := h.any (fun (op, o) => o.ran && !o.reached && (match op with | .proxyFail => false | _ => true))
+  let fired := h.any (fun (_, o) => o.fired > 0)
+  let failed := h.any (fun (_, o) => o.ran && o.status != .healthy)
+  let capped := h.any (fun (_, o) => o.ran && o.status != .healthy && o.delay ≥ Olla.Spec.C07.capLit)
+  let proxy := h.any (fun (op, _) => op == .proxyFail)
+  let skipped := h.any (fun (op, o) => !o.ran && (match op with | .sched _ => true | _ => false))
+  let _ := blocked
+  if !failed then "trivial" else
+  "c07" ++ (if shortc then ".breaker" else "") ++ (if capped then ".cap" else "") ++ (if fired then ".recover" else "")
+        ++ (if proxy then ".proxy" else "") ++ (if skipped then ".notdue" else "") ++ ".fail"
+
+def handle (vh vb : Variant) (j : Json) : IO Unit := do
+  let case := jnat (jget j "case")
+  let interval := jint (jget j "interval")
+  let ideal := jbool (jget j "ideal")
+  let rawOps := (jarr (jget j "ops")).map (fun o => (jint ((jarr o).getD 0 Json.null), jint ((jarr o).getD 1 Json.null)))
+  let impl := chunk10 (jintList (jget j "obs"))
+  let c := genCfg interval
+  let (sim, amb, dueOk) := simulate vh vb c (St.init 0) rawOps
+  if amb then
+    emit case true true "trivial" "" "a breaker or scheduler decision falls within 50 ms of a time boundary; not compared"
+  else
+    let ops := sim.map (·.1)
+    let want := sim.map (·.2)
+    let h := ops.zip (impl.map specObs)
+    let P : Olla.Spec.C07.Params := { interval := interval, breakerTimeout := c.breaker.timeout, threshold := c.breaker.threshold, ideal := ideal }
+    let bad := monitor P (Olla.Spec.C07.Ghost.init 0) (Olla.Spec.C07.Clause.all.map (fun _ => false)) h
+    let agree := decide (impl = want) && impl.length == rawOps.length && dueOk
+    let hist := " ".intercalate (ops.map opStr)
+    match ((Olla.Spec.C07.Clause.all.zip bad).find? (·.2)).map (·.1) with
+    | none => emit case agree true (branchOf h) "" (if agree then "" else s!"interval {interval / 1000000}ms [{hist}]")
+                (if agree then Json.null else toJson want.flatten)
+    | some k => emit case agree false (branchOf h) k.name
+                  s!"check_interval {interval / 1000000} ms, history [{hist}] violates clause {k.name}; observed (ran reached status delay fired failures mult …) per step {impl.map (fun o => o.take 7)}"
+                  (if agree then Json.null else toJson want.flatten)
+
+/-- `VERIF_C08_HEALTH` / `VERIF_C07_BACKOFF` = `fixed` | `pinned` override the committed variants
+    (to try a fix patch in a scratch worktree before the variant is flipped). -/
+def variantEnv (name : String) (dflt : Variant) : IO Variant := do
+  match (← IO.getEnv name) with
+  | some "fixed" => pure .fixed
+  | some "pinned" => pure .pinned
+  | _ => pure dflt
+
+def main : IO Unit := do
+  let vh ← variantEnv "VERIF_C08_HEALTH" activeHealth
+  let vb ← variantEnv "VERIF_C07_BACKOFF" activeBackoff
+  forLines (← IO.getStdin) (handle vh vb)
 
 end Olla.Driver.C07
